@@ -206,3 +206,20 @@ Theorem api_isolated me a x i s : api_session x = Some i ->
   forall j, j <> i -> cur j (stof (run_api cfg me a x s)) = cur j s.
 Proof. intros S j N. exact (proj1 (fi_run_api me _ a x i S s (FI_start i s)) j N). Qed.
 End WithCfg.
+
+(* C12: a refused request has no effect at all - every session record (queue, transport flags, liveness, user data) is exactly as
+   before, no session is created, and the table can only have lost an entry that was already closed *)
+Theorem refused_no_effect cfg me r q s x : decide cfg q (valof (lookup_view cfg q s)) = DRefuse x ->
+  store (stof (handle_request cfg me r q s)) = store s /\ nsid (stof (handle_request cfg me r q s)) = nsid s /\
+  (forall i, nmem i (table (stof (handle_request cfg me r q s))) = true -> nmem i (table s) = true).
+Proof.
+  intros D. unfold handle_request. rewrite stof_bind, D. destruct (sm_lookup_view cfg q s) as (E1 & _ & _ & E4 & E5).
+  assert (W : forall l z1, store (stof (wake_all l z1)) = store z1 /\ nsid (stof (wake_all l z1)) = nsid z1 /\ table (stof (wake_all l z1)) = table z1).
+  { induction l as [|t l IH]; intros z1; cbn [wake_all]; [auto|]. rewrite stof_bind. destruct (IH (stof (wake t z1))) as (H1 & H2 & H3). rewrite H1, H2, H3.
+    unfold wake, modst, stof. cbn. destruct (alookup t (tasks z1)); [destruct (nmem t (runq z1))|]; auto. }
+  assert (A : forall z, store (stof (answer me r x z)) = store z /\ nsid (stof (answer me r x z)) = nsid z /\ table (stof (answer me r x z)) = table z).
+  { intros z. unfold answer. rewrite stof_bind. change (stof (emit (OResp r x) z)) with z. unfold finish. rewrite stof_getst_bind, stof_bind.
+    destruct (W (flat_map (fun e => match waiter_of me e with Some w => [w] | None => [] end) (tasks z)) (stof (modst (fun s0 => set_tasks (adel me (tasks s0)) s0) z))) as (H1 & H2 & H3).
+    rewrite H1, H2, H3. cbn. auto. }
+  destruct (A (stof (lookup_view cfg q s))) as (A1 & A2 & A3). rewrite A1, A2, A3. split; [exact E1 | split; [exact E4 | exact E5]].
+Qed.
